@@ -299,6 +299,21 @@ def generate(seed, tier):
                     cases.append([case_line(rng, "lapall%d" % n)] + ops); ops = []
             if ops:
                 cases.append([case_line(rng, "lapall%d" % n)] + ops)
+    # degenerate assignment problems: sizes 4..7 with entries from a narrow integer range, so that the
+    # augmentation phase meets ties at every level (the dual update is only visible there)
+    for i in range(150 if tier == "thorough" else 36):
+        ops = []
+        for _ in range(20):
+            n = rng.choice([4, 5, 5, 6, 6, 7, 7])
+            lo, hi = rng.choice([(0, 1), (0, 1), (0, 2), (0, 3), (-2, 2), (-2, 4), (1, 5)])
+            v = [rng.randint(lo, hi) for _ in range(n * n)]
+            if rng.random() < 0.15:
+                # a cheap column that every row wants
+                j = rng.randrange(n)
+                for r in range(n):
+                    v[r * n + j] = lo - 1
+            ops.append("lap %d %d %s" % (n, n, " ".join(hx(x) for x in v)))
+        cases.append([case_line(rng, "lapdeg%d" % i)] + ops)
     # ---- random -------------------------------------------------------------------------------
     for cidx in range(N):
         f = rng.random()
